@@ -34,6 +34,7 @@ structure RunObs where
   emitted : Nat
   returned : Bool
   seqReturn : Nat
+  progress : Bool := true     -- gated scenario: the source finished while a discarding node was stalled
 deriving Repr, Inhabited
 
 def obsOf (r : RunObs) (i : Nat) : NodeObs := ((r.nodes.find? (fun x => x.1 = i)).map (·.2)).getD {}
@@ -76,7 +77,8 @@ def checkNode (o : Oracle) (r : RunObs) (role : Role) (s : NSpec) (offered : Lis
     (if ob.recv.length > 0 && !(ob.seqSetup < ob.seqFirstEnter) then [⟨"C05", "event-before-setup"⟩] else []) ++
     (if ob.highWater > s.workers then [⟨"C05", "more-concurrent-calls-than-workers"⟩] else []) ++
     (if r.returned && ob.shutdowns ≠ 1 then [⟨"C03", "shutdown-not-exactly-once"⟩] else []) ++
-    (if r.returned && ob.shutdowns = 1 && ob.recv.length > 0 && !(ob.seqLastExit < ob.seqShutEnter) then [⟨"C03", "shutdown-before-processing-returned"⟩] else []) ++
+    (if r.returned && ob.shutdowns = 1 && ob.recv.length > 0 && !(ob.seqLastExit < ob.seqShutEnter) then
+      [⟨"C03", "shutdown-before-processing-returned"⟩, ⟨"C05", "shutdown-overlaps-processing-call"⟩] else []) ++
     (if r.returned && ob.shutdowns = 1 && ob.recv.length > 0 && !(ob.seqLastEnter < ob.seqShutEnter) then [⟨"C03", "event-after-shutdown-began"⟩] else []) ++
     (if r.returned && ob.shutdowns = 1 && !(ob.seqShutExit < r.seqReturn) then [⟨"C03", "execute-returned-before-shutdown"⟩] else [])
   conservation ++ identity ++ discardAcc ++ counters ++ lifecycle
@@ -128,6 +130,7 @@ def walkRoots (o : Oracle) (r : RunObs) (stream : List String) : List FNode → 
 /-- all violations of one run -/
 def judge (o : Oracle) (roots : List FNode) (stream : List String) (r : RunObs) : List Viol :=
   (if !r.returned then [⟨"C03", "execute-did-not-return"⟩] else []) ++
+  (if !r.progress then [⟨"C04", "discarding-node-made-its-producers-wait"⟩] else []) ++
   walkRoots o r (stream.take r.emitted) roots
 
 end Firebolt.ExecTrace
